@@ -135,7 +135,8 @@ def parse_mir(text):
 
 
 TYPE_MODULE = {"MultiplicativeHash": "multiplicative_hash", "PeriodicTrigger": "trigger",
-               "sharded::Cache": "sharded", "plain::Cache": "plain", "Update": "second_chance"}
+               "sharded::Cache": "sharded", "plain::Cache": "plain", "Update": "second_chance",
+               "stack::Cache": "stack"}
 
 
 def find_function(funcs, callee):
@@ -378,6 +379,9 @@ class Executor:
                 return v[1][p[1]]
             if v[0] == "adt":
                 return v[3][p[1]]
+            if v[0] == "opaque" and getattr(self, "opaque_fields", False):
+                # a field of an abstract value is an abstract value named after it
+                return ("opaque", "%s_f%s" % (v[1], p[1]), "field of " + str(v[2])[:40])
             raise MirError("field of %r" % (v[0],))
         if p[0] == "refto":
             return v
@@ -460,6 +464,12 @@ class Executor:
             return self.const_values[c]
         if c in self.simple_consts:
             return self.constant(self.simple_consts[c])
+        if "::" in c:
+            # `module::NAME` at the use site, `NAME` (or `other::module::NAME`) at the definition
+            last = c.split("::")[-1]
+            hits = [k for k in self.simple_consts if k == last or k.endswith("::" + last)]
+            if len(hits) == 1:
+                return self.constant(self.simple_consts[hits[0]])
         if c == "()":
             return ("tuple", [])
         if c.startswith("ZeroSized"):
@@ -495,6 +505,14 @@ class Executor:
             if v[0] == "bool":
                 return mk_bool(s_not(v[1]))
             raise MirError("Not on int")
+        m = re.match(r"^PtrMetadata\((.*)\)$", s)
+        if m:
+            # length of a slice behind a fat pointer: an unknown non-negative size
+            return self.fresh_int("len", 64)
+        m = re.match(r"^&(?:mut )?\(\*(_\d+)\)\[(_\d+)\]$", s)
+        if m and getattr(self, "opaque_fields", False):
+            idx = self.read_place(f, m.group(2), env)
+            return ("ref", [("opaque", "elem[%s]" % (idx[1] if len(idx) > 1 else "?"), "slice element")])
         m = re.match(r"^&(?:mut )?(.*)$", s)
         if m:
             base, projs = self.parse_place(m.group(1))
@@ -568,6 +586,14 @@ class Executor:
         if op in ("Eq", "Ne") and a[0] == "opaque":
             t = "(= %s %s)" % (a[1], b[1])
             return mk_bool(t if op == "Eq" else s_not(t))
+        if getattr(self, "opaque_fields", False):
+            # an abstract value used as a number (e.g. a capacity field of an abstract struct)
+            def as_int(v, like):
+                if v[0] == "opaque" and re.match(r"^\w+$", v[1]):
+                    self.decls.append((v[1], "Int"))
+                    return mk_int(v[1], like[2] if like[0] == "int" else 64, like[3] if like[0] == "int" else False)
+                return v
+            a, b = as_int(a, b), as_int(b, a)
         if a[0] != "int" or b[0] != "int":
             raise MirError("binop %s on %s,%s" % (op, a[0], b[0]))
         x, y, bits, sg = a[1], b[1], a[2], a[3]
